@@ -175,15 +175,16 @@ class Ctx:
         if isinstance(cond, bool):
             return cond
         key = (len(self.pc), cond.get_id())
-        if key in self.cache_known:
-            return self.cache_known[key]
+        hit = self.cache_known.get(key)
+        if hit is not None and hit[1].eq(cond):
+            return hit[0]
         s = self.solver()
         s.push()
         s.add(z3.Not(cond))
         r = s.check()
         s.pop()
         res = (r == z3.unsat)
-        self.cache_known[key] = res
+        self.cache_known[key] = (res, cond)     # keep the term alive: z3 reuses ids of freed terms
         return res
 
     def assume(self, cond, why=None):
